@@ -379,31 +379,114 @@ def split_decisions(body, max_splits=2, max_blocks=2500):
             break
         J, ps, L = hit
         H = L['header']
-        region = fn.reachable(J, stop=frozenset([H]) | frozenset(x for x in range(fn.nb) if x not in L['body']))
-        region = {x for x in region if x in L['body'] and x != H}
+        # the rest of the iteration and the exit tails that leave the loop from it (e.g. `return Ok(..)` paths), up to the
+        # headers of this and of the enclosing loops
+        heads = frozenset(l['header'] for l in fn.loops() if J in l['body'])
+        region = fn.reachable(J, stop=heads)
+        region = {x for x in region if x not in heads and not fn.blocks[x]['cleanup']}
         if len(cur.blocks) + len(region) * (len(ps) - 1) > max_blocks:
             break
         j = copy.deepcopy(cur.j)
+        copies = []
         for p in ps[1:]:
             base = len(j['blocks'])
             order = sorted(region)
             m = {x: base + k for k, x in enumerate(order)}
+            copies.append(m)
             for x in order:
                 nb = copy.deepcopy(j['blocks'][x])
                 nb['term'] = _remap_term(nb['term'], m)
                 j['blocks'].append(nb)
             # the arm ending in p now continues in its own copy
             j['blocks'][p]['term'] = _retarget(j['blocks'][p]['term'], J, m[J])
+        # what the head switch tested, and the value it had on each arm: inside the copy of an arm a later switch on the
+        # same (not reassigned) variable takes the same edge
+        head = None
+        for p0 in ps:
+            c0 = p0
+            while fn.blocks[c0]['term']['k'] != 'switch':
+                c0 = [q for q in fn.b.preds()[c0] if q in fn.reachable(0)][0]
+            head = c0
+        src = _switch_source(fn, head)
+        arm_entry = {}
+        if src is not None:
+            tm = fn.blocks[head]['term']
+            for p0 in ps:
+                c0, prev = p0, J
+                while c0 != head:
+                    prev = c0
+                    c0 = [q for q in fn.b.preds()[c0] if q in fn.reachable(0)][0]
+                vals = [v for v, tg in tm['targets'] if tg == prev]
+                arm_entry[p0] = vals[0] if len(vals) == 1 else ('otherwise' if tm['otherwise'] == prev else None)
         cur = Body(j, body.crate)
         nsplit += 1
-        cur = fold_constant_switches(cur)
+        known = []
+        if src is not None:
+            all_vals = [v for v, _tg in fn.blocks[head]['term']['targets']]
+            for k, p0 in enumerate(ps):
+                blocks_k = set(region) if k == 0 else {copies[k - 1][x] for x in region}
+                known.append((blocks_k, src, arm_entry.get(p0), all_vals))
+        cur = fold_constant_switches(cur, known)
         skip.add(J)
     if nsplit:
         cur.inlined_from = set(getattr(body, 'inlined_from', set())) | {'decision-split:%s x%d' % (body.path, nsplit)}
     return cur
 
 
-def fold_constant_switches(body, rounds=6):
+def _switch_source(fn, b):
+    """(root local, id of its single reaching definition) of the value a switch block tests, following plain copies; None
+    when the tested value is not a once-assigned variable"""
+    t = fn.blocks[b]['term']
+    pl = t['discr'].get('move') or t['discr'].get('copy')
+    if pl is None or pl['p']:
+        return None
+    point = (b, fn.nstmts(b))
+    local = pl['l']
+    last = None
+    for _ in range(6):
+        evs, entry = fn.reaching(local, point, (), True, whole_only=True)
+        if entry or len(evs) != 1:
+            return last
+        e = evs[0]
+        last = (local, (e.block, e.idx))
+        if e.kind == 'assign' and e.data['k'] == 'assign' and e.data['rv']['k'] == 'use' and not e.path:
+            src = e.data['rv']['op'].get('move') or e.data['rv']['op'].get('copy')
+            if src is None or src['p']:
+                return last
+            local, point = src['l'], (e.block, e.idx)
+            continue
+        return last
+    return last
+
+
+def _same_source(fn, b, src):
+    """does switch block b test the same variable with the same reaching definition as `src`?"""
+    t = fn.blocks[b]['term']
+    pl = t['discr'].get('move') or t['discr'].get('copy')
+    if pl is None or pl['p']:
+        return False
+    point = (b, fn.nstmts(b))
+    local = pl['l']
+    for _ in range(6):
+        evs, entry = fn.reaching(local, point, (), True, whole_only=True)
+        if entry or len(evs) != 1:
+            return False
+        e = evs[0]
+        if (local, (e.block, e.idx)) == src:
+            return True
+        if e.kind == 'assign' and e.data['k'] == 'assign' and e.data['rv']['k'] == 'use' and not e.path:
+            s2 = e.data['rv']['op'].get('move') or e.data['rv']['op'].get('copy')
+            if s2 is None or s2['p']:
+                return False
+            local, point = s2['l'], (e.block, e.idx)
+            continue
+        return False
+    return False
+
+
+def fold_constant_switches(body, known=(), rounds=6):
+    """fold switches whose tested value is a constant, and (known = [(blocks, source, value, all values)]) switches inside
+    the copy of a decision arm that test the variable the decision itself tested"""
     from .engine import Fn
     cur = body
     for _ in range(rounds):
@@ -413,6 +496,21 @@ def fold_constant_switches(body, rounds=6):
         for b in sorted(reach):
             blk = cur.blocks[b]
             if blk['cleanup'] or blk['term']['k'] != 'switch':
+                continue
+            hit = None
+            for (blocks_k, src, val, all_vals) in known:
+                if b in blocks_k and val is not None and _same_source(fn, b, src):
+                    tm = {str(v): tg for v, tg in blk['term']['targets']}
+                    if val == 'otherwise':
+                        # the decision took its default edge: the value is none of the listed ones
+                        if set(tm.keys()) <= set(str(v) for v in all_vals):
+                            hit = blk['term']['otherwise']
+                    else:
+                        hit = tm.get(str(val), blk['term']['otherwise'])
+            if hit is not None:
+                if j is None:
+                    j = copy.deepcopy(cur.j)
+                j['blocks'][b]['term'] = {'k': 'goto', 'target': hit}
                 continue
             si = fn.switch_info(b)
             if si is None:
@@ -436,6 +534,18 @@ def fold_constant_switches(body, rounds=6):
                             val = str(names.index(a[2]))       # fieldless / default discriminants only
                             if any(v.get('discr') is not None for v in adt['variants']):
                                 val = None
+            elif n[0] == 'call' and n[1] in ('std::cmp::PartialEq::eq', 'std::cmp::PartialEq::ne') and len(n[2]) == 2 and \
+                    all(len(a) == 1 for a in n[2]):
+                # derived equality of two known field-less enum values
+                x, y = next(iter(n[2][0])), next(iter(n[2][1]))
+                if x[0] == 'agg' and y[0] == 'agg' and x[1] == y[1] and not x[3] and not y[3]:
+                    adt = cur.crate.adts.get(x[1])
+                    t_call = fn.blocks[n[3][1]]['term'] if n[3][0] == fn.path else None
+                    res = (t_call or {}).get('func', {}).get('resolved', {})
+                    rb = cur.crate.body(res.get('path', '')) if res else None
+                    if adt is not None and adt.get('is_enum') and rb is not None and rb.j.get('impl_derived'):
+                        eq = x[2] == y[2]
+                        val = '1' if (eq if n[1].endswith('::eq') else not eq) else '0'
             if val is None:
                 continue
             tgt = tmap.get(val, other)
